@@ -1,8 +1,8 @@
 SPECIFICATION Spec
 CONSTANTS
   Gor = {"g1", "g2", "g3"}
-  Eps = {"E", "F"}
-  Svcs = {"xe", "e", "ef", "f", "t"}
+  Eps = {"E"}
+  Svcs = {"e"}
   Adv <- AdvAll
   MaxReq = 1
   MaxLoss = 0
@@ -12,6 +12,6 @@ CONSTANTS
   Dev_AuthFailureLeaksConnection = FALSE
   Dev_DeadClientStaysInPool = FALSE
   Dev_PoolKeyedByAdvertised = FALSE
-  Dev_CloserBeforeInsert = FALSE
-INVARIANTS TypeOK ProcessAlive NoBadUnlock MutexOK RequestOutcome ReturnedIsOpen AtMostOneConnPerEndpoint ExtraConnectionsClosed PoolHoldsLiveClients AllGetTheSharedClient NoDeadlock
+  Dev_CloserBeforeInsert = TRUE
+INVARIANTS TypeOK AtMostOneConnPerEndpoint AllGetTheSharedClient
 CHECK_DEADLOCK FALSE
